@@ -15,6 +15,8 @@ type CaseStream struct {
 	Items []*Value `json:"items"`
 	Tail  HexBytes `json:"tail,omitempty"`
 	Reuse bool     `json:"reuse,omitempty"` // successive messages of one type are decoded into the same receiver object
+	Loose bool     `json:"loose,omitempty"` // items are arbitrary encodable values (over-long text, all-pad text ...): the decoded value is compared with the interpreter's reading of the bytes the encoder produced
+	Chunk []int    `json:"chunk,omitempty"` // per item: if > 0, the receiver is first offered only the first Chunk[i] mod len bytes of the item (a partial segment), which fails; then the whole stream continues
 }
 
 func oracleC07(c *CaseStream) *Failure {
@@ -24,6 +26,9 @@ func oracleC07(c *CaseStream) *Failure {
 	for i, v := range c.Items {
 		err, pan, _ := safely(func() error { return EncodeAny(ToStruct(v), buf) })
 		if err != nil || pan != nil {
+			if c.Loose && pan == nil {
+				return nil // an arbitrary value the encoder refuses: nothing to stream (C17/C02 judge refusals)
+			}
 			return failf("C07/"+v.Type+"/encode", "item %d: canonical value not encodable: err=%v panic=%v", i, err, pan)
 		}
 		ends[i] = buf.Len()
@@ -41,8 +46,16 @@ func oracleC07(c *CaseStream) *Failure {
 				receivers[v.Type] = obj
 			}
 		}
-		err, pan, _ := safely(func() error { return DecodeAny(obj, buf) })
 		sig := "C07/" + v.Type
+		if i < len(c.Chunk) && c.Chunk[i] > 0 && ends[i] > startOf(ends, i) {
+			// a partial segment arrives first: the attempt fails (C11) and must leave nothing behind that changes the next decode
+			k := c.Chunk[i] % (ends[i] - startOf(ends, i))
+			part := bytes.NewBuffer(append([]byte{}, wire[startOf(ends, i):startOf(ends, i)+k]...))
+			if _, pan, _ := safely(func() error { return DecodeAny(obj, part) }); pan != nil {
+				return failf(sig+"/panic", "item %d: Decode panicked on the first %d bytes of the message: %v", i, k, pan)
+			}
+		}
+		err, pan, _ := safely(func() error { return DecodeAny(obj, buf) })
 		if pan != nil {
 			return failf(sig+"/panic", "item %d: Decode panicked: %v", i, pan)
 		}
@@ -56,7 +69,15 @@ func oracleC07(c *CaseStream) *Failure {
 		if cerr != nil {
 			return failf(sig+"/value", "item %d: %v", i, cerr)
 		}
-		if d := Diff(got, Computed(v)); d != "" {
+		want := Computed(v)
+		if c.Loose {
+			pv, n, perr := Parse(v.Type, wire[startOf(ends, i):ends[i]])
+			if perr != nil || n != ends[i]-startOf(ends, i) {
+				continue // the encoder's bytes are not what the schema says (C02's business); consumption was still judged above
+			}
+			want = pv
+		}
+		if d := Diff(got, want); d != "" {
 			return failf(sig+"/value", "item %d of %d decoded differently when followed by other bytes: %s", i, len(c.Items), d)
 		}
 	}
@@ -174,6 +195,17 @@ func rpC07(types []string, all bool) (out []RProp) {
 		out = append(out, MkProp("C07", "c07", tn, func(rt *rapid.T) *CaseStream {
 			v, _ := GenValue(rt, tn, smallOpts())
 			c := &CaseStream{Items: []*Value{v}}
+			if rapid.IntRange(0, 3).Draw(rt, "loose") == 0 {
+				// any encodable value, not only canonical ones: over-long text (cut by the writer), text made of pad bytes ...
+				lo := smallOpts()
+				lo.Mode, lo.NoAbsent = Arbitrary, true
+				lv, _ := GenValue(rt, tn, lo)
+				if r := Render(lv, nil); !r.MustError && !r.MayError {
+					c.Items, c.Loose = []*Value{lv}, true
+					v = lv
+					Col.Class("arbitrary(non-canonical)-value+tail", 1)
+				}
+			}
 			switch rapid.IntRange(0, 5).Draw(rt, "tailkind") {
 			case 5: // a long tail: the unread total is near a multiple of 64 KiB (lengths compared in narrow arithmetic)
 				el := len(Render(v, nil).Bytes)
@@ -231,6 +263,10 @@ func rpC07(types []string, all bool) (out []RProp) {
 				c.Tail = rapid.SliceOfN(rapid.Byte(), 1, 16).Draw(rt, "tail")
 			}
 			cls := []string{"same-type-stream-reused-receiver"}
+			if rapid.Bool().Draw(rt, "chunked") {
+				c.Chunk = rapid.SliceOfN(rapid.OneOf(rapid.Just(0), rapid.IntRange(1, 1<<20)), n, n).Draw(rt, "chunk")
+				cls = append(cls, "partial-segment-attempts-between-decodes")
+			}
 			if len(kinds) >= 2 {
 				cls = append(cls, "reused-receiver-changes-part-type")
 			}
@@ -253,7 +289,10 @@ func rpC07(types []string, all bool) (out []RProp) {
 			if Thorough() {
 				n = rapid.IntRange(1, 40).Draw(rt, "n")
 			}
-			c := &CaseStream{}
+			c := &CaseStream{Reuse: rapid.Bool().Draw(rt, "reuse")}
+			if rapid.Bool().Draw(rt, "chunked") {
+				c.Chunk = rapid.SliceOfN(rapid.OneOf(rapid.Just(0), rapid.IntRange(1, 1<<20)), n, n).Draw(rt, "chunk")
+			}
 			kinds := map[string]bool{}
 			so := smallOpts()
 			so.HugeProb, so.HugeObj = 0, 0 // the remainder is compared after every decode: keep the stream's total size moderate
@@ -269,6 +308,12 @@ func rpC07(types []string, all bool) (out []RProp) {
 			}
 			nt := n >= 2 && len(kinds) >= 2
 			cls := []string{"stream:" + m, fmt.Sprintf("stream-len:%d", min(n, 10)/5*5)}
+			if c.Reuse {
+				cls = append(cls, "frame-stream-into-one-reused-frame-object")
+			}
+			if len(c.Chunk) > 0 {
+				cls = append(cls, "partial-segment-attempts-between-decodes")
+			}
 			if nt {
 				cls = append(cls, "stream>=2-mixed-bodies")
 			}
